@@ -416,6 +416,28 @@ func genInterpCase(id int, rng *RNG, prof *Profile) *interpCase {
 		ic.ast = append(ic.ast, loop, &Ast{K: "text", Text: g.marker()})
 		g.tag("scenario:range-loop-lazybreak-then-continue")
 	}
+	if prof.BreakN && rng.Chance(10) {
+		// lazybreak N (N >= 2) in the innermost of three counting loops that all have iterations
+		// left, then - later in the same iteration - a range loop over a variable that does not
+		// exist (with or without else branch): the depth stays pending for the enclosing loops
+		ov, mv, iv := g.newVar("i"), g.newVar("i"), g.newVar("i")
+		lb := &Ast{K: "lazybreak", N: 2 + rng.Intn(2)}
+		if rng.Bool() {
+			lb.Cond = &ACond{L: iv, Op: "==", R: fmt.Sprint(rng.Intn(2)), RLit: true}
+		}
+		rl := &Ast{K: "rloop", Var: g.newVar("v"), Src: []string{"nosuch.Items", "absent", "user.Nope"}[rng.Intn(3)], Body: []*Ast{{K: "text", Text: g.marker()}}}
+		if rng.Bool() {
+			rl.HasElse, rl.Else = true, []*Ast{{K: "text", Text: g.marker()}}
+		}
+		inner := &Ast{K: "cloop", Var: iv, Init: "0", InitLit: true, Op: "<", Lim: "3", LimLit: true, Step: "++", Body: []*Ast{{K: "print", Path: iv}, lb, {K: "text", Text: []byte("-")}, rl, {K: "text", Text: []byte("+")}}}
+		mid := &Ast{K: "cloop", Var: mv, Init: "0", InitLit: true, Op: "<", Lim: "3", LimLit: true, Step: "++", Body: []*Ast{{K: "text", Text: []byte("(")}, inner, {K: "text", Text: []byte(")")}}}
+		outer := &Ast{K: "cloop", Var: ov, Init: "0", InitLit: true, Op: "<", Lim: "3", LimLit: true, Step: "++", Body: []*Ast{{K: "text", Text: []byte("[")}, mid, {K: "text", Text: []byte("]")}}}
+		ic.ast = append(ic.ast, outer, &Ast{K: "text", Text: g.marker()})
+		if g.budget < 12 {
+			g.budget = 12
+		}
+		g.tag("scenario:lazybreakN-then-range-over-missing")
+	}
 	if prof.BreakN && rng.Chance(15) {
 		// break N / lazybreak N written in the else branch of a loop that does not iterate, two
 		// loops deep: it names the two enclosing loops (the loop it is written in has ended)
@@ -588,6 +610,41 @@ func runInterp(o *Options, prop string, prof *Profile, quickN, thoroughN int, co
 			twin.vc = &tvc
 			queue = append(queue, &twin)
 			res.Hist("stream:keepfmt-twin")
+		}
+	}
+	// every scenario, combination and rarer feature the profile can produce appears in every run, however
+	// the main stream falls: further cases are generated from a stream of their own and kept only when
+	// they carry a tag the run has seen fewer than three times
+	if o.Replay == "" && n > 0 {
+		seenTag := map[string]int{}
+		for _, ic := range queue {
+			for t := range ic.tags {
+				seenTag[t]++
+			}
+		}
+		extra := NewRNG(o.Seed ^ 0x5ce9a110)
+		id := 2*(n+len(corpus)) + 7
+		maxExtra := n/4 + 5
+		if prof.Faults {
+			maxExtra = n/8 + 3 // every case of this profile is rendered once per write of its output
+		}
+		kept := 0
+		for attempt := 0; attempt < 4*n+200 && kept < maxExtra; attempt++ {
+			ic := genInterpCase(id, extra.Fork(), prof)
+			want := false
+			for t := range ic.tags {
+				want = want || seenTag[t] < 3
+			}
+			if !want {
+				continue
+			}
+			for t := range ic.tags {
+				seenTag[t]++
+			}
+			queue = append(queue, ic)
+			id++
+			kept++
+			res.Hist("stream:coverage-top-up")
 		}
 	}
 	var prevData *DataEnv
